@@ -41,7 +41,7 @@ def dump_query(x):
         return "Join::%s" % _src(j.item)
     lby = vars(x).get("_limit_by")      # never getattr: Selectable.__getattr__ answers any name with a Field
     parts = [
-        "CH" if type(x).__name__ == "ClickHouseQueryBuilder" else "Q",
+        {"ClickHouseQueryBuilder": "CH", "PostgreSQLQueryBuilder": "PG", "MySQLQueryBuilder": "MY"}.get(type(x).__name__, "Q"),
         "FROM[" + semi(_src(t) for t in x._from) + "]",
         "INS[" + ("" if x._insert_table is None else _src(x._insert_table)) + "]",
         "UPD[" + ("" if x._update_table is None else _src(x._update_table)) + "]",
@@ -57,6 +57,10 @@ def dump_query(x):
         "JOIN[" + semi(join(j) for j in x._joins) + "]",
         "SET[" + semi(T(f) + "=" + T(v) for f, v in x._updates) + "]",
         "LBY[" + semi(T(t) for t in (lby[2] if lby else [])) + "]",
+        "DON[" + semi(T(t) for t in vars(x).get("_distinct_on", [])) + "]",
+        "RET[" + semi(T(t) for t in vars(x).get("_returns", [])) + "]",
+        "USING[" + semi(_src(t) for t in x._using) + "]",
+        "DUP[" + semi(T(f) + "=" + T(v) for f, v in vars(x).get("_duplicate_updates", [])) + "]",
     ]
     return " ".join(parts)
 
